@@ -49,7 +49,10 @@ func genC12(t *rapid.T) Script {
 	case 2:
 		b.MaxElapseNs = eff * 40
 	}
-	b.MaxRetries = stats.From(t, []int{-1, 0, 0, 0, 1, 2, 3, 5}, "maxretries")
+	b.MaxRetries = stats.From(t, []int{-1, -3, 0, 0, 0, 1, 2, 3, 5}, "maxretries")
+	if stats.Pct(t, "nthconn") >= 70 {
+		sc.NthConn = 1 + stats.Pick(t, 2, "nthconnn")
+	}
 	n := 1 + stats.Pick(t, 12, "nattempts")
 	for i := 0; i < n; i++ {
 		var a Attempt
@@ -289,6 +292,9 @@ func checkC12(t *testing.T, sc Script) *stats.Verdict {
 	}
 	if e.jitter == -1 {
 		v.Class("jitter-off")
+	}
+	if sc.NthConn > 0 {
+		v.Class("client-value-reused")
 	}
 	if stopped && !sawElapsedStop {
 		v.Class("stopped-by-maxretries")
